@@ -29,6 +29,7 @@ def run(ctx):
         R.instance("CONST", "DEFAULT_BUFFER_CAPACITY = %s" % c["int"])
     try:
         from rules import lib_reader
+        lib_reader.check_read_message(ctx, "read")
         lib_reader.check(ctx, "read")
         R.floor("PANIC", 3)
         R.floor("ALG", 2)
